@@ -240,7 +240,9 @@ theorem indep_getTable (a : Nat) (rels : List RelID) : Indep (getTable a rels) :
           · rfl
           · split
             · rfl
-            · exact getTable_go_setStats w st _ _
+            · split
+              · rfl
+              · exact getTable_go_setStats w st _ _
 
 theorem cacheAddTable_setStats (w : World) (st : WorldStats) (T : Table) :
     (w.setStats st).cacheAddTable T = (w.cacheAddTable T).map fun w' => w'.setStats st := by
